@@ -218,6 +218,30 @@ fn main() {
             if bad > 3 { break; }
         }
     }
+    // long-term, user-name anonymity requested by the nonce cookie (bit 1 << 30: "obMatJos2" + base64(40 00 00)): the retry carries
+    // USERHASH = SHA-256(username ":" realm) (RFC 8489 14.4) instead of USERNAME; without the bit it carries USERNAME
+    for (cookie, anonymous) in [("obMatJos2QAAAanon-nonce", true), ("obMatJos2AAAAplain-nonce", false)] {
+        n += 1;
+        let mut c = client(Mech::Lt, false);
+        let t0 = Instant::now();
+        let id1 = c.send_request(BINDING, StunAttributes::default(), vec![0; 1024], t0).expect("send");
+        let _ = c.events();
+        if c.on_buffer_recv(&error_response(id1, 401, cookie, None), t0 + Duration::from_millis(5)).is_err() { continue; }
+        let _ = c.events();
+        if c.send_request(BINDING, StunAttributes::default(), vec![0; 1024], t0 + Duration::from_millis(6)).is_err() { continue; }
+        let (pk, _) = packets(&mut c);
+        if pk.len() != 1 { continue; }
+        let (msg, _) = match MessageDecoderBuilder::default().build().decode(&pk[0]) { Ok(x) => x, Err(_) => continue };
+        let names = msg.attributes().iter().filter(|a| a.is_user_name()).count();
+        let hashes: Vec<Vec<u8>> = msg.attributes().iter().filter(|a| a.is_user_hash()).map(|a| a.expect_user_hash().hash().to_vec()).collect();
+        let want = hmac_sha256::Hash::hash(format!("{}:{}", USER, REALM).as_bytes()).to_vec();
+        if anonymous && (names != 0 || hashes != vec![want.clone()]) {
+            println!("WITNESS: long-term client, nonce cookie with the user-name-anonymity bit: {} USERNAME attribute(s), USERHASH {:02x?}; expected no USERNAME and USERHASH = SHA-256(\"{}:{}\")", names, hashes, USER, REALM); bad += 1;
+        }
+        if !anonymous && (names != 1 || !hashes.is_empty()) {
+            println!("WITNESS: long-term client, nonce cookie without the anonymity bit: {} USERNAME attribute(s), {} USERHASH", names, hashes.len()); bad += 1;
+        }
+    }
     // credentials are used exactly as configured (the OpaqueString profile keeps ASCII spaces: " pw " and "pw" are different passwords)
     for (user, pass) in [(" padded user ", " padded password "), ("user ", " password"), ("\u{e9}l\u{e8}ve", "se\u{301}same")] {
         n += 1;
